@@ -130,6 +130,31 @@ class C08(Check):
                  'seg_bias': rng.choice([1.0, 0.7, 0.3]), 'lat_bias': rng.choice([1.0, 0.7, 0.4]),
                  'specs': specs, 'scripts': scripts, 'nconn': nconn, 'updaters': updaters,
                  'settle': rng.choice([1.0, 3.0])}
+        if rng.random() < 0.15:
+            # focus: connections with specific scopes come and go at the same instant - a closing connection is
+            # removed by its own handler thread while other connections subscribe to event names not seen before
+            nconn = shape['nconn'] = rng.choice([2, 3, 3])
+            ops = []
+            allspecs = [m for m in names] + [f'{m}:{pn if pn in ("value", "status") else "_" + pn}'
+                                             for m in names for pn in names[m]]
+            rng.shuffle(allspecs)
+            t0 = rng.choice([0.05, 0.1])
+            for c in range(nconn):
+                first = rng.choice([0, 0.001])
+                for k in range(rng.randrange(1, 4)):
+                    ops.append({'c': c, 'kind': 'activate', 'spec': allspecs.pop() if allspecs else None,
+                                'dt': first if k == 0 else 0})
+                if c < nconn - 1 or rng.random() < 0.5:
+                    ops.append({'c': c, 'kind': 'close', 'spec': None, 'dt': max(0, t0 - first) if c == 0 else 0})
+                else:
+                    ops.append({'c': c, 'kind': 'activate', 'spec': allspecs.pop() if allspecs else None, 'dt': t0})
+            # the later connections start their second round when the first one closes
+            for c in range(1, nconn):
+                mine = [o for o in ops if o['c'] == c]
+                if len(mine) > 1:
+                    mine[1]['dt'] = t0
+            shape['line_gaps'] = rng.choice([3, 5, 8])
+            shape['focus'] = True
         return {'shape': shape, 'ops': ops}
 
     def shrink_candidates(self, case):
@@ -233,6 +258,22 @@ class C08(Check):
             if rec and not rec['client'].closed:
                 rec['client'].drain(quiet=2.0, maxtime=20)
         ctx['handlers_done'] = [h['done'] for h in world.handlers]
+        # what the dispatcher still holds of connections whose handler has finished (closed and removed)
+        disp = node.dispatcher
+        leaks = ctx['leaks'] = []
+        for h in world.handlers:
+            if not h['done']:
+                continue
+            hd = h['handler']
+            where = []
+            if hd in disp._active_connections:
+                where.append('all events')
+            where += [k for k, v in disp._subscriptions.items() if hd in v]
+            if hd in disp._connections:
+                where.append('connection list')
+            if where or h.get('exc') or h.get('sends_after_done'):
+                leaks.append({'conn': h['idx'], 'where': where, 'exc': h.get('exc'), 'done_seq': h.get('done_seq'),
+                              'sends': [(q, repr(d)[:120]) for q, d in h.get('sends_after_done', ())[:5]]})
         ctx['server_sent'] = [[(t, q) for (t, q, _d) in world.handlers[rec['client'].hidx]['sock'].sent_log]
                               if rec else [] for rec in conns]
         ctx['exported'] = {m: [p.export for p in node.module(m).parameters.values() if p.export]
@@ -263,7 +304,12 @@ class C08(Check):
             states[key] = [(seq, st)]
         for h in hist:
             if h['export']:
-                states.setdefault((h['mod'], h['export']), []).append((h['seq'], h['state']))
+                lst = states.setdefault((h['mod'], h['export']), [])
+                if lst and h['seq'] <= lst[0][0] and len(lst) == 1:
+                    continue        # a change made before the initial state was taken is contained in it
+                if lst and lst[-1][1] == h['state']:
+                    continue        # the same announcement seen twice (value and timestamp identical)
+                lst.append((h['seq'], h['state']))
         final = ctx['final']
 
         def find_state(key, st):
@@ -278,6 +324,16 @@ class C08(Check):
             # one sendall per message: the i-th line a client received is the i-th send of its handler
             return ctx['server_sent'][cidx]
 
+        # after a disconnect nothing more is delivered: the dispatcher must have forgotten the connection
+        for lk in ctx.get('leaks', ()):
+            if lk['exc']:
+                res.append(Violation('C08.update-after-close', 'handler-raised',
+                                     f'the handler of connection {lk["conn"]} ended with {lk["exc"]}; the dispatcher still '
+                                     f'holds it for {lk["where"]}'))
+            elif lk['where']:
+                res.append(Violation('C08.update-after-close', 'still-registered',
+                                     f'connection {lk["conn"]} was closed and its handler has finished, but the dispatcher '
+                                     f'still holds it for {lk["where"]} (messages sent to it since: {lk["sends"][:2]})'))
         for cidx, rec in enumerate(ctx['conns']):
             if rec is None:
                 continue
@@ -310,7 +366,10 @@ class C08(Check):
                 for k in before:
                     if not in_scope(scopes, *k):
                         ended_by[k] = ev
+                        epoch.pop(k, None)      # a later activation starts a new series of messages
             last_msg = {}           # key -> (state index, line idx) of the last message per parameter
+            epoch = {}              # key -> state index of the last message while the key stayed in scope
+            fresh = {}              # id(activate event) -> keys which entered a scope with it
             delivered_in = {}       # id(ev) -> set of keys delivered between send and reply of an activate
             open_act = None
             for (seq, t, ln) in lines:
@@ -318,9 +377,15 @@ class C08(Check):
                     _i, what, ev = boundaries[bi]
                     bi += 1
                     if what == 'start':
+                        before = {k for k in all_keys if in_scope(scopes, *k)}
                         apply_start(scopes, ev['spec'])
                         open_act = ev
                         delivered_in[id(ev)] = {}
+                        # parameters entering a scope with this request: their series of messages starts with its
+                        # snapshot (a straggler of an earlier scope may still arrive before it)
+                        fresh[id(ev)] = {k for k in all_keys if in_scope(scopes, *k)} - before
+                        for k in fresh[id(ev)]:
+                            epoch.pop(k, None)
                     elif what == 'failed':
                         # an activate that was refused never opened a scope
                         sp = ev['spec']
@@ -341,6 +406,14 @@ class C08(Check):
                 key = (mod, exp)
                 st = nodeworld.msg_state(ln)
                 idx = find_state(key, st)
+                if idx is not None and key in epoch and idx <= epoch[key]:
+                    # the same state may be held several times: take the first occurrence not yet delivered
+                    for i2 in range(epoch[key] + 1, len(states.get(key, ()))):
+                        s2 = states[key][i2][1]
+                        if s2[0] == st[0] and s2[1] == st[1] and s2[-1] == st[-1]:
+                            if open_act is None:
+                                idx = i2
+                            break
                 if not in_scope(scopes, mod, exp):
                     if key not in ended_by:
                         res.append(Violation('C08.cross-talk', 'unsolicited',
@@ -378,6 +451,17 @@ class C08(Check):
                         'C08.stale-snapshot', 'overtaken',
                         f'conn {cidx}: snapshot line {ln.idx} {ln!r} of activate {open_act["spec"]!r} shows cache state '
                         f'#{idx} although line {last_msg[key][1]} already delivered the newer state #{last_msg[key][0]}'))
+                # while a parameter stays in scope every change of its cache is delivered: no state is skipped
+                # (the node sends one message per announced change, in order, inside the update lock)
+                if open_act is not None and key in fresh.get(id(open_act), ()):
+                    epoch.pop(key, None)
+                if key in epoch and idx > epoch[key] + 1:
+                    res.append(Violation(
+                        'C08.update-missed', 'snapshot' if open_act else 'stream',
+                        f'conn {cidx}: line {ln.idx} {ln!r} shows cache state #{idx} of {key}, the previous message '
+                        f'for it showed #{epoch[key]}: the states in between {states[key][epoch[key] + 1:idx][:3]} were '
+                        f'never delivered although the parameter stayed in an active scope'))
+                epoch[key] = max(idx, epoch.get(key, -1))
                 last_msg[key] = (idx, ln.idx)
                 if open_act is not None:
                     delivered_in[id(open_act)][key] = idx
